@@ -36,6 +36,7 @@ import (
 
 func watch(name string, f func() uint64) {
 	ch := make(chan uint64, 1)
+	fmt.Printf("%s start\\n", name)
 	go func() { ch <- f() }()
 	select {
 	case v := <-ch:
@@ -141,12 +142,88 @@ def t_goargs(r, name):
     return body, True
 
 
+def t_signalled(r, name):
+    """a WaitTimeout that is signalled long before its timeout: it must return holding the mutex"""
+    v = r.randrange(1, 90)
+    body = "func %s() uint64 {\n\tmu := new(sync.Mutex)\n\tcond := sync.NewCond(mu)\n\tvar ready bool = false\n\tvar n uint64 = %d\n" % (name, v)
+    body += "\tgo func() {\n\t\tmachine.Sleep(%d)\n\t\tmu.Lock()\n\t\tready = true\n\t\tn = n + 1\n\t\tcond.%s()\n\t\tmu.Unlock()\n\t}()\n" % (r.choice([2000000, 5000000]), r.choice(["Signal", "Broadcast"]))
+    body += "\tmu.Lock()\n\tfor !ready {\n\t\tmachine.WaitTimeout(cond, %d)\n\t}\n\tn = n + 10\n\tmu.Unlock()\n\tmu.Lock()\n\tres := n\n\tmu.Unlock()\n\treturn res\n}\n" % r.choice([1500, 2500])
+    return body, True
+
+
+def t_bcast(r, name):
+    """several waiters parked on one condition variable; ONE Broadcast (or one Signal per waiter) releases them all"""
+    n = r.randrange(2, 4)
+    vals = [r.randrange(1, 30) for _ in range(n)]
+    bc = r.random() < 0.7
+    body = "func %s() uint64 {\n\tmu := new(sync.Mutex)\n\tcond := sync.NewCond(mu)\n\twg := new(sync.WaitGroup)\n\tvar open bool = false\n\tvar total uint64 = 0\n" % name
+    for v in vals:
+        body += "\twg.Add(1)\n\tgo func() {\n\t\tmu.Lock()\n\t\tfor !open {\n\t\t\tcond.Wait()\n\t\t}\n\t\ttotal = total + %d\n\t\tmu.Unlock()\n\t\twg.Done()\n\t}()\n" % v
+    body += "%s\tmu.Lock()\n\topen = true\n" % sleep(r, 0.8)
+    body += "\tcond.Broadcast()\n" if bc else "\tcond.Signal()\n" * n
+    body += "\tmu.Unlock()\n\twg.Wait()\n\tmu.Lock()\n\tres := total\n\tmu.Unlock()\n\treturn res\n}\n"
+    return body, True
+
+
+# the program's OWN types that merely share their names with the sync primitives (declared once per package)
+OWN_TYPES = """type WaitGroup struct {
+	n uint64
+}
+
+func (w *WaitGroup) Add(d uint64) {
+	w.n = w.n + d
+}
+
+func (w *WaitGroup) Done() {
+	w.n = w.n + 100
+}
+
+func (w *WaitGroup) Wait() {
+	w.n = w.n + 10000
+}
+
+type Mutex struct {
+	n uint64
+}
+
+func (m *Mutex) Lock() {
+	m.n = m.n + 1
+}
+
+func (m *Mutex) Unlock() {
+	m.n = m.n + 10
+}
+
+type Cond struct {
+	n uint64
+}
+
+func (c *Cond) Wait() {
+	c.n = c.n + 1
+}
+
+func (c *Cond) Signal() {
+	c.n = c.n + 5
+}
+"""
+
+
+def t_owntypes(r, name):
+    """sequential use of the program's own WaitGroup / Mutex / Cond types: their own methods must run"""
+    k = r.randrange(3)
+    if k == 0:
+        return "func %s() uint64 {\n\tw := new(WaitGroup)\n\tw.Add(%d)\n\tw.Done()\n\tw.Wait()\n\tw.Wait()\n\treturn w.n\n}\n" % (name, r.randrange(1, 9)), True
+    if k == 1:
+        return "func %s() uint64 {\n\tm := new(Mutex)\n\tm.Lock()\n\tm.Lock()\n\tm.Unlock()\n\treturn m.n + %d\n}\n" % (name, r.randrange(1, 9)), True
+    return "func %s() uint64 {\n\tc := new(Cond)\n\tc.Wait()\n\tc.Signal()\n\treturn c.n + %d\n}\n" % (name, r.randrange(1, 9)), True
+
+
 MAY_BE_REJECTED = {"t_goargs"}
 
-TEMPLATES = [t_goargs, t_counter, t_counter, t_cond, t_timeout, t_order, t_loopspawn, t_helper, t_handoff]
+TEMPLATES = [t_goargs, t_counter, t_counter, t_cond, t_timeout, t_order, t_loopspawn, t_helper, t_handoff, t_signalled, t_owntypes, t_bcast]
 
 
-def package(seed, nfuncs=7):
+def package(seed, nfuncs=10):
     r = random.Random(seed)
     fns = []
     for k in range(nfuncs):
@@ -154,10 +231,12 @@ def package(seed, nfuncs=7):
         # whose mutex lives in a re-assignable variable; then templates by rotation and at random
         r.force_zero_timeout = (seed % 2 == 0)
         r.force_var_mutex = (k == 2)
-        t = [t_timeout, t_goargs, t_counter][k] if k < 3 else TEMPLATES[(seed + k) % len(TEMPLATES)] if k < 5 else r.choice(TEMPLATES)
+        t = [t_timeout, t_goargs, t_counter, t_signalled, t_owntypes, t_bcast][k] if k < 6 else TEMPLATES[(seed * 3 + k) % len(TEMPLATES)] if k < 9 else r.choice(TEMPLATES)
         src, det = t(r, "c%d" % k)
         fns.append(("c%d" % k, t.__name__, src, det))
     body = "\n".join(f[2] for f in fns)
+    if any(f[1] == "t_owntypes" for f in fns):
+        body += "\n" + OWN_TYPES
     src = "package p\n\nimport (\n\t\"sync\"\n" + ("\n\t\"github.com/goose-lang/goose/machine\"\n" if "machine." in body else "") + ")\n\n" + body
     return fns, src
 
@@ -182,9 +261,17 @@ def native_outcomes(root, fns, runs, race):
         q = subprocess.run([exe], cwd=root, env=env, capture_output=True, text=True, timeout=600)
         if "WARNING: DATA RACE" in q.stderr:
             races.append(q.stderr[:1500])
+        last = None
         for l in q.stdout.splitlines():
             nm, _, val = l.partition(" ")
-            out[nm][val] += 1
+            if val == "start":
+                last = nm
+            else:
+                out[nm][val] += 1
+        if q.returncode != 0 and last is not None and "WARNING: DATA RACE" not in q.stderr:
+            # the process died inside `last` (a fatal error of the runtime, e.g. unlock of an unlocked mutex, or a panic)
+            first = next((l for l in q.stderr.splitlines() if l.startswith(("fatal error:", "panic:"))), q.stderr[:120])
+            out[last]["crashed: " + first.strip()] += 1
     return out, races
 
 
@@ -230,8 +317,16 @@ def check(ctx, build=None):
             nat, races = native_outcomes(root, all_fns, runs, race=False)
             nat_r, races_r = native_outcomes(root, all_fns, max(1, runs // 3), race=True)
             if races_r:
-                raise C.Infra("C03 generator produced a racy program (seed %d): %s" % (seed, races_r[0][:600]))
+                # the programs are race free by construction (every shared access is under the mutex or ordered by wait group /
+                # condition hand-off): a report means the primitives they use do not give mutual exclusion any more
+                viol("C03: the race detector reports a data race in a program whose shared accesses are all protected by the Go-side primitives",
+                     {"proto": "c03", "seed": seed, "package": src}, "no data race", races_r[0][:2500])
+                continue
             reps = k4.gl_session(text, ["explore " + f[0] for f in fns])
+            # Go's sync.Cond never wakes a waiter without Signal/Broadcast: under that reading too the emitted program of a
+            # schedule-independent Go program must have no deadlock (templates that wait with Cond.Wait only)
+            strict_fns = [f for f in fns if f[3] and "cond.Wait()" in f[2] and "WaitTimeout" not in f[2]]
+            strict = dict(zip([f[0] for f in strict_fns], k4.gl_session(text, ["explore-strict " + f[0] for f in strict_fns])[1:])) if strict_fns else {}
             if reps[0].startswith("parse-error"):
                 viol("C03: emitted file cannot be read back", {"proto": "c03", "seed": seed}, "well-formed", k4.unhex(reps[0]))
                 continue
@@ -266,6 +361,14 @@ def check(ctx, build=None):
                         stats["schedule_dependent_in_gooselang"] += 1
                         viol("C03: the Go result does not depend on the schedule, but some interleaving of the emitted GooseLang program deadlocks, gets stuck or yields another result",
                              inp, {"every_interleaving": only}, {"gooselang_outcomes_over_all_interleavings": gl})
+                if det and len(go) == 1 and name in strict and strict[name].split()[0] == "outcomes" and strict[name].split()[2] != "1":
+                    sgl = sorted(bytes.fromhex(x).decode() for x in strict[name].split()[3:] if x != "-")
+                    stats["strict_cond_explorations"] += 1
+                    stats["states_explored"] += int(strict[name].split()[1])
+                    if set(sgl) != {"value " + next(iter(go))}:
+                        viol("C03: with condition variables that wake a waiter only on Signal/Broadcast (Go's sync.Cond) the Go program always returns, "
+                             "but some interleaving of the emitted program deadlocks or yields another result",
+                             inp, {"every_interleaving": "value " + next(iter(go))}, {"gooselang_outcomes_with_strict_condition_variables": sgl})
                 if len(samples) < 2 and (len(gl) > 1 or tname == "t_cond"):
                     samples.append({"template": tname, "go_outcomes": dict(go), "gooselang_outcomes": gl, "states": states})
             shutil.rmtree(root, ignore_errors=True)
@@ -285,7 +388,8 @@ def check(ctx, build=None):
     ctx.assumptions += [
         "interleaving at synchronisation operations only is exhaustive for data-race-free programs (the generated programs are race free by construction; "
         "the race detector runs on every package and a report aborts the run as a generator bug)",
-        "condition waits may wake up spuriously in the GooseLang model (sound over-approximation of sync.Cond); unfair infinite schedules are not outcomes",
+        "condition waits may wake up spuriously in the GooseLang model (Perennial's lock.condWait is release-then-acquire); unfair infinite schedules are not outcomes; "
+        "a second exploration gives Wait/Signal/Broadcast the counting semantics of Go's sync.Cond (wake-up only by a signal) to find lost wake-ups",
         "Go's outcome set is sampled (schedules cannot be enumerated natively): a Go-only outcome may be missed, never invented",
     ]
     return ctx.finish(build)
